@@ -140,6 +140,13 @@ def step_probe(pid, tier, seed):
     return "vprobe", rep
 
 
+def step_cli16(pid, tier, seed):
+    H.build_tools()
+    cli = H.ensure_cli()
+    out = os.path.join(H.OUT, f"{pid}.c16cli.json")
+    return "c16cli", H.run_engine([H.tool("vgraph"), "c16cli", "--prop", pid, "--tier", tier, "--file", cli, "--out", out], out)
+
+
 def step_readprobe(pid, tier, seed):
     reps = []
     for cfg in ["u-dev", "u-rel", "f-dev", "f-rel"]:
@@ -196,7 +203,7 @@ prop("C01", level="model_checking",
 prop("C02", level="model_checking",
      technique="explicit-state product exploration (Graph x reference automaton): error fatal offset, stop-consuming point",
      text="The same product exploration decides, for every input of every length, that a match attempt stops exactly at the first symbol after which no pattern can match any extension (tags ERRSPAN, EARLY-STOP, OVERREAD).",
-     note="Same trusted base as C01.", design_ref="5 C02, 3", steps=[step_selfcheck, step_layer1, step_layer2(["u-dev"], ["u-dev", "u-rel", "f-dev", "f-rel"])], assumptions=L1_ASSUME)
+     note="Same trusted base as C01. The error VALUE (Default / error callback / pattern callback) is checked through the real derive (vderive c13).", design_ref="5 C02, 3", steps=[step_selfcheck, step_layer1, step_layer2(["u-dev"], ["u-dev", "u-rel", "f-dev", "f-rel"]), step_vderive("c13", ["tc-u-dev"], ["tc-u-dev", "sm-u-dev", "tc-f-rel"])], assumptions=L1_ASSUME)
 prop("C03", level="model_checking",
      technique="structural invariants on every captured Graph + nullable-pattern rejection over the enumerated family",
      text="Every captured graph is checked for the invariants that make any walk terminate and tile (root records nothing, EOI edges lead to terminal late-accept states, every edge consumes one byte), and every enumerated definition with a pattern that can match the empty string (decided on the reference automaton) must be rejected.",
@@ -225,7 +232,7 @@ prop("C11", level="model_checking", engine="vgraph",
 prop("C16", level="model_checking", engine="vgraph",
      technique="deviation-bounded schedule exploration: every hash-iteration site is a seam owned by the explorer; every seam call x every (bounded set of) permutation, single and paired deviations, both code generators; outputs must be byte-identical",
      text="The only nondeterminism (hash-container iteration order) is put behind seams; all single deviations (and pairs on small definitions) are executed on the real generate() and must leave the generated code and the graph byte-identical. A labelled sample of real hash seeds (fresh threads) supplements it.",
-     note="Trusted: the seam list covers every hash-container-to-sequence conversion in logos-codegen (grep-audited, DESIGN.md 2.2); a future iteration site without a seam is only covered by the seed sample.", design_ref="5 C16", steps=[step_vgraph("c16")],
+     note="Trusted: the seam list covers every hash-container-to-sequence conversion in logos-codegen (grep-audited, DESIGN.md 2.2); a future iteration site without a seam is only covered by the seed sample.", design_ref="5 C16", steps=[step_vgraph("c16"), step_cli16],
      assumptions=["seams sit at every place where a hash container is turned into a sequence (audited by grep)", "permutation sets for long lists are reduced as stated in bounds"])
 prop("C18", level="exploration", engine="vgraph",
      technique="exhaustive enumeration of all permutations of named arguments / #[logos] items; real generate() output compared with the canonical order",
@@ -254,7 +261,7 @@ prop("C06", level="exploration", engine="vrt",
      technique="exhaustive differential replay: both code generators' compiled output in one process on every enumerated input; state-machine stack bound by a length ladder on a small stack plus a structural check of the emitted code",
      text="For every compiled definition and every enumerated input the tail-call and state-machine lexers produce identical items, spans and end positions; the state-machine output contains no per-state functions (structural), and runs inputs up to millions of bytes on a 64 KiB stack.",
      note="Callback invocation order is compared in vderive (real derive).", design_ref="5 C06",
-     steps=[step_vgraph("c06struct"), step_layer2(["u-dev"], ["u-dev", "u-rel", "f-dev", "f-rel"]), step_stack],
+     steps=[step_vgraph("c06struct"), step_layer2(["u-dev"], ["u-dev", "u-rel", "f-dev", "f-rel"]), step_stack, step_vderive("c13", ["tc-u-dev", "sm-u-dev"], ["tc-u-dev", "sm-u-dev", "tc-f-rel", "sm-f-rel"], compare_digests=True)],
      rules=["all strings <= L symbols over the representative alphabet + transition cover x 256 + loop inputs, per compiled definition, both back ends in one process; non-trivial = expected stream has >= 2 items, an error or a skip"],
      assumptions=L2_ASSUME)
 prop("C12", level="exploration", engine="vgraph+vrt",
@@ -467,7 +474,7 @@ def write_manifest():
             "guard": "cargo feature verif_hooks (logos-codegen and logos)",
             "enable": "engines depend on /repo/logos-codegen and /repo by path with features = [\"verif_hooks\"]",
             "baseline_off_cmd": "cd /repo && cargo test --workspace --no-fail-fast --offline",
-            "source_commits": ["c9cc40e", "3fbd0f5"],
+            "source_commits": ["c9cc40e", "3fbd0f5", "36f9ccf", "18e7083", "02a1c71"],
             "add_only": True,
         },
         "engines": [
